@@ -92,6 +92,36 @@ def wf_fan_keeper() -> Any:
                                        make_step("work", [Work], [Done], work, num_workers=2), make_step("join", [Done], [StopEvent, None], join, num_workers=1)])
 
 
+def wf_fan_keeper_returned() -> Any:
+    """as ``fan_keeper``, but the two work items are RETURNED by two producer steps instead of being sent with ctx.send_event (no
+    event ever sits in the run's mailbox behind a finished step, so the run never announces idle while it works)"""
+    async def p1(self, ctx, ev, inv):  # noqa: ANN001
+        await gate("p1")
+        return Work(uid=1)
+
+    async def p2(self, ctx, ev, inv):  # noqa: ANN001
+        await gate("p2")
+        return Work(uid=2)
+
+    async def keeper(self, ctx, ev, inv):  # noqa: ANN001
+        await gate("keeper")
+        return None
+
+    async def work(self, ctx, ev, inv):  # noqa: ANN001
+        await gate(f"work{ev.uid}")
+        return Done(uid=ev.uid * 10)
+
+    async def join(self, ctx, ev, inv):  # noqa: ANN001
+        got = ctx.collect_events(ev, [Done, Done])
+        if got is None:
+            return None
+        return StopEvent(result="fanin:" + ",".join(str(u) for u in sorted(e.uid for e in got)))
+
+    return make_workflow("FanKeeperReturned", [make_step("p1", [StartEvent], [Work], p1), make_step("p2", [StartEvent], [Work], p2),
+                                               make_step("keeper", [StartEvent], [None], keeper), make_step("work", [Work], [Done], work, num_workers=2),
+                                               make_step("join", [Done], [StopEvent, None], join, num_workers=1)])
+
+
 def wf_queue_order() -> Any:
     """three items for a single-worker step: two always wait in its queue; the fan-in keeps ARRIVAL order, so the result
     shows in which order the restored queue was worked off"""
@@ -198,6 +228,7 @@ PROGRAMS: dict[str, dict[str, Any]] = {
     "chain": {"make": wf_chain, "expected": "chain:2", "responses": []},
     "fanin": {"make": wf_fanin, "expected": "fanin:10,20", "responses": []},
     "fan_keeper": {"make": wf_fan_keeper, "expected": "fanin:10,20", "responses": []},
+    "fan_keeper_returned": {"make": wf_fan_keeper_returned, "expected": "fanin:10,20", "responses": []},
     "queue_order": {"make": wf_queue_order, "expected": "order:0,1,2", "responses": []},
     "retry": {"make": wf_retry, "expected": "retry:2", "responses": []},
     "recover": {"make": wf_recover, "expected": "recovered:s1:ValueError", "responses": []},
@@ -274,7 +305,9 @@ def execute(ex: Execution, pname: str, backend: str, crash_at: int | None, netwo
 
     def lost_kind(ticks_now: list[dict[str, Any]], sent: int, adds_before: int) -> str:
         """root-cause context of a crash point: what the stopped process had accepted but not yet made durable"""
-        persisted_adds = sum(1 for td in ticks_now if td.get("type") == "add_event") - adds_before
+        total_adds = sum(1 for td in ticks_now if td.get("type") == "add_event")
+        # (the first add_event tick of a log is the run's StartEvent, which is not among the counted sends)
+        persisted_adds = total_adds - adds_before - (1 if adds_before == 0 and total_adds > 0 else 0)
         last = ticks_now[-1] if ticks_now else {}
         if last.get("type") == "step_result" and not _is_terminal_tick(last, pname) and any(
                 (r.get("type") == "result" and r.get("result") is not None) or r.get("type") == "failed" for r in last.get("result", [])):
@@ -615,12 +648,13 @@ def programs(tier: str) -> list[Program]:
             for k in range(1, 26 if pname in ("fanin", "retry", "queue_order") else 18):
                 ps.append(Program(f"{pname}/{backend}/crash_after_tick_{k:02d}", {"program": pname, "backend": backend, "crash_at": k},
                                   (lambda ex, pname=pname, backend=backend, k=k: execute(ex, pname, backend, k)),
-                                  max_dev=(1 if q else 2)))
+                                  max_dev=((2 if pname.startswith("fan_keeper") else 1) if q else (3 if pname.startswith("fan_keeper") else 2))))
     # two process stops: the restarted server is stopped again after the j-th tick it persisted itself
-    for pname in (("chain", "fanin", "fan_keeper") if q else [p for p in PROGRAMS if p not in ("wait_busy_answer_after_restart", "wait_released_then_answered")]):
+    quick_kj = {"fan_keeper": ((3, 5, 6), (1, 3, 4)), "fan_keeper_returned": ((9,), (2, 4))}
+    for pname in (("chain", "fanin", "fan_keeper", "fan_keeper_returned") if q else [p for p in PROGRAMS if p not in ("wait_busy_answer_after_restart", "wait_released_then_answered")]):
         for backend in (("sqlite",) if q else ("memory", "sqlite")):
-            for k in (((2, 4, 6) if pname != "fan_keeper" else (5, 6)) if q else range(1, 13)):
-                for j in (((1, 2) if pname != "fan_keeper" else (1, 3)) if q else range(1, 7)):
+            for k in (quick_kj.get(pname, ((2, 4, 6), (1, 2)))[0] if q else range(1, 13)):
+                for j in (quick_kj.get(pname, ((2, 4, 6), (1, 2)))[1] if q else range(1, 7)):
                     ps.append(Program(f"{pname}/{backend}/crash_after_tick_{k:02d}_then_{j:02d}",
                                       {"program": pname, "backend": backend, "crash_at": k, "crash_at2": j},
                                       (lambda ex, pname=pname, backend=backend, k=k, j=j: execute(ex, pname, backend, k, crash_at2=j)),
